@@ -22,7 +22,7 @@ def _fast_unescape(s, _slow=tlc._unescape):
 tlc._unescape = _fast_unescape
 
 INV = "INVARIANTS TypeOK Shape CountExact ValueExact"
-PROPS = "PROPERTIES NoProtected NoGrace LowestFirst NothingBelowLow LeavesAtMostLow ForceTrimOrder TrimInert"
+PROPS = "PROPERTIES NoProtected NoGrace LowestFirst NothingBelowLow LeavesAtMostLow ForceTrimOrder TrimInert SelectInert"
 
 
 def S(*names):
@@ -30,12 +30,13 @@ def S(*names):
 
 
 def inst(name, peers, conns, tags=("t",), tagpeers=None, vals="{1, 2}", low=1, high=2, grace=1, maxage=1,
-         silence=0, force=True, profile=1, prot2=(), prot1=(), decaymax=0, decayevery=1):
+         silence=0, force=True, profile=1, prot2=(), prot1=(), decaymax=0, decayevery=1, split=False, maxburst=2):
     return name, {
         "Peers": S(*peers), "Conns": S(*conns), "Tags": S(*tags),
         "TagPeers": S(*(peers if tagpeers is None else tagpeers)), "Vals": vals, "Low": low, "High": high,
         "Grace": grace, "MaxAge": maxage, "Silence": silence, "HasForce": "TRUE" if force else "FALSE",
-        "Profile": profile, "Prot2": S(*prot2), "Prot1": S(*prot1), "DecayMax": decaymax, "DecayEvery": decayevery}
+        "Profile": profile, "Prot2": S(*prot2), "Prot1": S(*prot1), "DecayMax": decaymax, "DecayEvery": decayevery,
+        "Split": "TRUE" if split else "FALSE", "MaxBurst": maxburst}
 
 
 P3 = ("p1", "p2", "p3")
@@ -68,6 +69,143 @@ def replay_instances(ctx):
                  profile=3),
         ]
     return out
+
+
+def gate_instance(ctx):
+    """Concurrent variant (a trim = Collect ... foreign steps ... Select): its graph yields the interference
+    scripts the harness delivers at the callbacks the manager makes on the stub connections during a trim."""
+    return inst("conc3", P3, ("p1a", "p2a", "p3a"), vals="{1}", prot1=("p3",), profile=1, split=True, maxburst=2)
+
+
+FOREIGN = ("connected", "disconnected", "tag", "untag", "upsert", "protect", "unprotect")
+
+
+def _gate_scripts(g, seed, cap):
+    """Scripts from the graph of the concurrent variant.
+
+    window script: prefix to a state where a trim runs, Collect, a burst of 1..2 foreign steps, Select;
+    post script:   prefix, Collect, Select, one more step (delivered while the trim closes connections);
+    force script:  prefix to a state, a burst of 1..2 foreign steps delivered inside ForceTrim.
+    Only source states in which two connected candidates tie on the value are used (the comparison then
+    looks at the connections: that is the callback the interference hangs on).  Kept in this order up to
+    `cap`: every went-and-came-back burst, every burst of length 1, post scripts, the other length-2
+    bursts on ONE peer, then a seeded sample of the remaining pairs."""
+    import collections
+    import random
+    rnd = random.Random(seed)
+    st = g.states
+    on = lambda k: st[k][4][0]
+    prev = {k: None for k in g.inits}
+    dq = collections.deque(g.inits)
+    while dq:
+        u = dq.popleft()
+        for ei in g.out.get(u, ()):
+            sk, op, tk = g.edges[ei]
+            if op["name"] in ("collect", "select") or on(tk) or tk in prev:
+                continue
+            prev[tk] = (u, ei)
+            dq.append(tk)
+
+    def prefix(k):
+        path = []
+        while prev[k] is not None:
+            k, ei = prev[k]
+            path.append(g.edges[ei][1])
+        path.reverse()
+        return path
+
+    def ties(k, cands):
+        vals = [st[k][0][p][3] for p in cands if st[k][0][p][0] == "c"]
+        return len(vals) != len(set(vals))
+
+    def mk(entry, pre, window, post, final, mayprune):
+        return {"entry": entry, "prefix": pre, "window": [g.edges[e][1] for e in window],
+                "post": [g.edges[e][1] for e in post], "final": st[final], "mayprune": mayprune}
+
+    def select_of(k):
+        outs = [e for e in g.out.get(k, ()) if g.edges[e][1]["name"] == "select"]
+        # the edge pruning every reachable temporary entry (what the code does unless the keys moved)
+        outs.sort(key=lambda e: -len(g.edges[e][1]["pruned"]))
+        return outs[0]
+
+    back, single, post, same, other = [], [], [], [], []
+    for sk, op0, wk in g.edges:
+        if op0["name"] != "collect" or sk not in prev or not ties(sk, op0["cands"]):
+            continue
+        pre = prefix(sk)
+        for e1 in g.out.get(wk, ()):
+            o1 = g.edges[e1][1]
+            if o1["name"] == "select":
+                continue
+            k1 = g.edges[e1][2]
+            es = select_of(k1)
+            single.append(mk("trim", pre, [e1], [], g.edges[es][2], g.edges[es][1]["mayprune"]))
+            for e2 in g.out.get(k1, ()):
+                o2 = g.edges[e2][1]
+                if o2["name"] == "select":
+                    continue
+                es = select_of(g.edges[e2][2])
+                sc = mk("trim", pre, [e1, e2], [], g.edges[es][2], g.edges[es][1]["mayprune"])
+                if o1["name"] == "disconnected" and not o1["dup"] and o2["name"] == "connected" and o1["p"] == o2["p"]:
+                    back.append(sc)
+                elif o1.get("p") == o2.get("p"):
+                    same.append(sc)
+                else:
+                    other.append(sc)
+        es = select_of(wk)
+        tk = g.edges[es][2]
+        if op0["target"] > 0:
+            for e3 in g.out.get(tk, ()):
+                o3 = g.edges[e3][1]
+                if o3["name"] in FOREIGN or o3["name"] == "trim":
+                    post.append(mk("trim", pre, [], [e3], g.edges[e3][2], g.edges[es][1]["mayprune"]))
+    # forced trim: no state effect, so a burst is a plain path of foreign steps
+    for sk in sorted(prev):
+        unprot = [p for p, f in st[sk][0].items() if f[0] != "n" and not f[5]]
+        if not ties(sk, unprot) or st[sk][1] <= 1:
+            continue
+        pre = prefix(sk)
+        for e1 in g.out.get(sk, ()):
+            o1 = g.edges[e1][1]
+            if o1["name"] not in FOREIGN:
+                continue
+            single.append(mk("force", pre, [e1], [], g.edges[e1][2], []))
+            for e2 in g.out.get(g.edges[e1][2], ()):
+                o2 = g.edges[e2][1]
+                if o2["name"] in FOREIGN and o1.get("p") == o2.get("p"):
+                    sc = mk("force", pre, [e1, e2], [], g.edges[e2][2], [])
+                    if o1["name"] == "disconnected" and not o1["dup"] and o2["name"] == "connected":
+                        back.append(sc)
+                    else:
+                        same.append(sc)
+    counts = {"went_and_came_back": len(back), "single": len(single), "post": len(post), "same_peer_pairs": len(same),
+              "other_pairs": len(other)}
+    scripts = list(back)
+    for pool in (single, post, same, other):
+        rnd.shuffle(pool)
+        scripts += pool[:max(0, cap - len(scripts))]
+    return scripts, counts
+
+
+def _gate_instance(args):
+    ctx, (name, consts), out_dir, cap = args
+    import json
+    cfg = tlc.subst_cfg("C14_MC.cfg", consts, replace=[
+        ("INIT Init", "INIT MCInit"), ("VIEW View", "VIEW View\nACTION_CONSTRAINT EmitEdge")])
+    r = tlc.run(ctx, "C14_MC", "gen_%s_edges.cfg" % name, cfg_text=cfg, workers=1, timeout=1500, name="ed" + name)
+    if not r.ok:
+        raise MachineryError("design-level failure in C14 %s: %s violated\n%s" % (name, r.violated, r.out[-2500:]))
+    conf = [o for t, o in r.prints if t == "VFCONF"]
+    g = graph.Graph(r.inits, r.edges)
+    scripts, counts = _gate_scripts(g, ctx.seed, cap)
+    if not counts["went_and_came_back"] or not counts["single"] or not counts["post"]:
+        raise MachineryError("vacuity guard: interference script families %s from %s" % (counts, name))
+    with open(os.path.join(out_dir, name + ".jsonl"), "w") as f:
+        f.write(json.dumps({"header": {"name": name, "conf": conf[0], "init": g.states[g.inits[0]]}}, sort_keys=True) + "\n")
+        for i, sc in enumerate(scripts):
+            sc["id"] = i
+            f.write(json.dumps(sc, sort_keys=True) + "\n")
+    return name, r.distinct, r.generated, g.n_edges(), len(scripts), counts, r.wall
 
 
 def exhaustive_instances(ctx):
@@ -167,6 +305,7 @@ def run(ctx):
         raise MachineryError("C14 artefacts hold the failing prefix and the instance; re-run `VERIF_SEED=<seed in file name> ./check C14`")
     tlc.stage(ctx)
     beh_dir = ctx.sub("beh")
+    gate_dir = ctx.sub("gate")
     rinsts = replay_instances(ctx)
     einsts = exhaustive_instances(ctx)
 
@@ -179,17 +318,19 @@ def run(ctx):
         fe = [pe.submit(_exhaustive, (ctx, i, 2)) for i in einsts]
         # a trim that skips a protected peer and closes another one / a forced trim closing a protected peer
         fg = [pe.submit(_reach, (ctx, einsts[0], probe)) for probe in ("ReachProtSkip", "ReachForceProt")]
+        fgate = pr.submit(_gate_instance, (ctx, gate_instance(ctx), gate_dir, 20000 if ctx.quick else 10 ** 9))
         fr = [pr.submit(_replay_instance, (ctx, i, beh_dir)) for i in rinsts]
         eres = [f.result() for f in fe]
         guards = [f.result() for f in fg]
         log("C14: exhaustive done at %.1fs" % ctx.wall())
         rres = [f.result() for f in fr]
+        gres = fgate.result()
         log("C14: graphs and walks done at %.1fs" % ctx.wall())
         stress = fs.result()
         log("C14: stress done at %.1fs" % ctx.wall())
 
-    states = sum(r[1] for r in eres) + sum(r[1] for r in rres)
-    trans = sum(r[2] for r in eres) + sum(r[2] for r in rres)
+    states = sum(r[1] for r in eres) + sum(r[1] for r in rres) + gres[1]
+    trans = sum(r[2] for r in eres) + sum(r[2] for r in rres) + gres[2]
     edges_total = sum(r[3] for r in rres)
     n_walks = sum(r[4] for r in rres)
     tot = {}
@@ -204,22 +345,33 @@ def run(ctx):
 
     div = classify_mismatches(ctx, stress, "stress")
 
+    gates = goenv.run_harness(ctx, PKG, "^TestVerifC14Gates$", inputs=gate_dir, timeout=1500)
+    div += classify_mismatches(ctx, gates, "gates")
+    gx = gates.get("extra") or {}
+    if not gates["mismatches"] and not (gx.get("went_and_came_back_realised") and gx.get("runs_delivered_trim")
+                                        and gx.get("runs_delivered_force")):
+        raise MachineryError("vacuity guard: interference scenarios not realised: %s" % gx)
     res = goenv.run_harness(ctx, PKG, "^TestVerifC14Replay$", inputs=beh_dir, timeout=1500)
     div += classify_mismatches(ctx, res, "replay")
     if not res["mismatches"] and res["distinct"] < edges_total:
         raise MachineryError("replay executed %d distinct transitions of %d" % (res["distinct"], edges_total))
+    log("C14: interference scripts %s -> %s" % (gres, gx))
     log("C14: exhaustive %s; replay %s; %d states, %d transitions generated, %d replay transitions, %d walks, %d steps; stress %d rounds; L2 divergences %d; guards %s"
         % ([(r[0], r[1], r[2], r[3]) for r in eres], [(r[0], r[1], r[3], r[7]) for r in rres], states, trans,
            edges_total, n_walks, res["steps"], stress["replayed"], div, guards))
     cov = evidence.mc_coverage(
-        states, trans, res["replayed"] + stress["replayed"], res.get("samples") or [], exhaustive=True,
+        states, trans, res["replayed"] + stress["replayed"] + gates["replayed"], res.get("samples") or [], exhaustive=True,
         checker_cmd="tlc C14_MC.tla (template C14_MC.cfg instantiated: exhaustive %s; printed+replayed %s)" % (
             ",".join(r[0] for r in eres), ",".join(r[0] for r in rres)),
         instances=len(eres) + len(rres), exhaustive_only={r[0]: {"states": r[1], "transitions": r[2]} for r in eres},
         replay_instances={r[0]: {"states": r[1], "transitions": r[3], "walks": r[4]} for r in rres},
         replay_transitions_in_graphs=edges_total, replay_steps_executed=res["steps"],
         replay_distinct_transitions_executed=res["distinct"], replay_transition_kinds=tot,
-        replay_extra=res.get("extra"), stress_rounds=stress["replayed"], stress_operations=stress["steps"],
+        replay_extra=res.get("extra"),
+        interference={"instance": gres[0], "states": gres[1], "transitions": gres[3], "scripts": gres[4],
+                      "script_families_available": gres[5], "runs": gates["replayed"], "runs_delivered": gates["distinct"],
+                      "detail": gx, "rule": gates.get("rule")},
+        stress_rounds=stress["replayed"], stress_operations=stress["steps"],
         divergences_L2=div, notes=ctx.notes[:10], rule=res.get("rule"), stress_rule=stress.get("rule"))
     return {"level": "model_checking", "coverage": cov, "assumptions": [
         "bounded instances: <=4 peers, <=2 connections per peer, <=2 tag names with values {1,2}, <=2 protection tags, grace <=2 clock units, watermarks low<=2/high<=4",
@@ -227,7 +379,7 @@ def run(ctx):
         "ForceTrim is documented to ignore the grace period: the grace clause is applied to TrimOpenConns and the background trim only; for ForceTrim the order clause (protected only after all unprotected, lowest value first inside a class) is checked",
         "closing MORE peers than the sort key requires is not excluded by the statement: reported as L2 divergence (membership), not as a violation",
         "one decaying tag (BumpSumBounded, DecayFixed) with the decayer's resolution equal to the clock unit; closing a decaying tag is not modelled",
-        "concurrency: seeded stress audited at quiescence (counts, tag totals, protection) plus the never-closed clauses for peers protected / inside grace throughout; no linearisation check of intermediate states",
+        "concurrency: (a) interference scripts generated from the two-step (Collect/Select) variant of the spec, delivered by another goroutine at every Stat()/RemotePeer()/CloseWithError() callback of a trim; bursts of at most 2 foreign calls; a burst step on a peer whose segment lock the parked trim holds cannot be delivered at that callback; two overlapping trims' collection/selection windows are not interleaved (only a second trim while the first closes connections); (b) seeded stress audited at quiescence (counts, tag totals, protection) plus the never-closed clauses for peers protected / inside grace throughout; no linearisation check of intermediate states",
     ]}
 
 
